@@ -374,7 +374,8 @@ class SchemaBuilder(
                 else res["type"]
                 for res in results
             )
-            return json_schema(type=list(types))
+            # (alternatives of the same JSON type: the `type` array must not repeat)
+            return json_schema(type=list(dict.fromkeys(types)))
         elif (
             len(results) == 2
             and all("type" in res for res in results)
